@@ -114,3 +114,7 @@ Lemma cell_as_modelled :
   default_wf OnceInitCell_default = true /\ no_drop_wf OnceInitCell_no_drop = true /\
   drop_wf OnceInitCell_drop = true.
 Proof. vm_compute. repeat split. Qed.
+
+(* the cell's once-state is the thread-safe OnceCell *)
+Lemma once_cell_is_the_sync_one : fn_body OnceCell_import = [EPath ["once_cell"; "sync"; "OnceCell"]].
+Proof. vm_compute. reflexivity. Qed.
